@@ -2,7 +2,7 @@
 check(
     "C05",
     "exploration",
-    "All ordered tree shapes up to 8 (quick) / 10 (thorough) nodes with every start node are enumerated and Hypothesis adds shapes up to 60 nodes; each of the five iterators is compared element-wise (identity) with an independently written reference order, plus exactly-once and no-mutation clauses. Complete below the size bound, sampled above; no claim beyond the explored cases.",
+    "All ordered tree shapes up to 8 (quick) / 10 (thorough) nodes with every start node are enumerated and Hypothesis adds shapes up to 60 nodes; each of the five iterators is compared element-wise (identity) with an independently written reference order, plus exactly-once and no-mutation clauses. Complete below the size bound, sampled above; no claim beyond the explored cases. Generated cases carry up to three mutations (move, detach, reverse children, rename); the complete oracle is re-evaluated on the same node objects after each of them (read - mutate - read again), which is what exposes stale caches.",
     "Trusts the reference orders in vf/refs.py (recursion / explicit queue over .children) and that tree depth stays below the interpreter recursion limit.",
     "bounded-exhaustive shape enumeration + Hypothesis random trees vs. reference traversal orders",
     "DESIGN.md section 4 C05",
@@ -18,7 +18,7 @@ check(
 check(
     "C06",
     "exploration",
-    "The complete product start node x stop subset x filtered-out subset x maxlevel is enumerated on every shape with <= 5 (quick) / <= 6 (thorough) nodes for all five iterators (both ways of passing empty predicates, keyword and positional), and compared with the reference 'admitted set' restriction of the unrestricted order; Hypothesis adds trees up to 25 nodes. Exhaustive inside the bound, sampled beyond.",
+    "The complete product start node x stop subset x filtered-out subset x maxlevel is enumerated on every shape with <= 5 (quick) / <= 6 (thorough) nodes for all five iterators (both ways of passing empty predicates, keyword and positional), and compared with the reference 'admitted set' restriction of the unrestricted order; Hypothesis adds trees up to 25 nodes. Exhaustive inside the bound, sampled beyond. Generated cases carry up to three mutations (move, detach, reverse children, rename); the complete oracle is re-evaluated on the same node objects after each of them (read - mutate - read again), which is what exposes stale caches.",
     "Trusts the admitted-set reference in vf/refs.py; predicates are pure functions of node identity.",
     "bounded-exhaustive option product + Hypothesis vs. admitted-set reference restriction",
     "DESIGN.md section 4 C06",
@@ -26,7 +26,7 @@ check(
 check(
     "C09",
     "exploration",
-    "Rows of RenderTree are compared with a row oracle built from 'has following sibling' flags for every shape <= 6/7 nodes x start x 7 styles x 5 childiters x every maxlevel, and the drawing is decoded back into a shape from the prefixes alone; Hypothesis adds larger trees, random equal-width styles, multi-line/empty/list/tuple/int/missing/callable values for by_attr and str(), and Node/AnyNode/SymlinkNode reprs with generated attributes and separators.",
+    "Rows of RenderTree are compared with a row oracle built from 'has following sibling' flags for every shape <= 6/7 nodes x start x 7 styles x 5 childiters x every maxlevel, and the drawing is decoded back into a shape from the prefixes alone; Hypothesis adds larger trees, random equal-width styles, multi-line/empty/list/tuple/int/missing/callable values for by_attr and str(), and Node/AnyNode/SymlinkNode reprs with generated attributes and separators. Generated cases carry up to three mutations (move, detach, reverse children, rename); the complete oracle is re-evaluated on the same node objects after each of them (read - mutate - read again), which is what exposes stale caches.",
     "Assumes lines are separated by '\\n' only and values carry no trailing newline (not generated); custom styles are decodable (cont != end, vertical != blank).",
     "bounded-exhaustive shapes x options + Hypothesis text values vs. row oracle and decode-back round trip",
     "DESIGN.md section 4 C09",
@@ -34,7 +34,7 @@ check(
 check(
     "C14",
     "exploration",
-    "For generated attributed trees (nodes may lack the searched attribute) every (mincount, maxcount) combination around the true match count is executed for findall/findall_by_attr in search and cachedsearch, keyword and positional, plus find/find_by_attr; results are compared by identity with the reference filtered pre-order, CountError is required iff a bound is violated and its message must name both numbers.",
+    "For generated attributed trees (nodes may lack the searched attribute) every (mincount, maxcount) combination around the true match count is executed for findall/findall_by_attr in search and cachedsearch, keyword and positional, plus find/find_by_attr; results are compared by identity with the reference filtered pre-order, CountError is required iff a bound is violated and its message must name both numbers. Generated cases carry up to three mutations (move, detach, reverse children, rename); the complete oracle is re-evaluated on the same node objects after each of them (read - mutate - read again), which is what exposes stale caches.",
     "Trusts the C06 reference; fastcache is not installed in this sandbox so cachedsearch runs its pass-through wrappers (the property's 'same results' clause is checked on them).",
     "Hypothesis attributed trees + systematic small cases vs. reference filtered pre-order and iff count-bound predicate",
     "DESIGN.md section 4 C14",
@@ -42,7 +42,7 @@ check(
 check(
     "C15",
     "exploration",
-    "Every ordered pair of nodes of every shape up to 7 (quick) / 9 (thorough) nodes, cross-tree pairs, and sampled pairs on Hypothesis trees up to 60 nodes: the triple is compared with path arithmetic on ancestor chains recomputed from .parent, the link/simple-path clauses are checked directly, walk(end,start) must be the mirror image, WalkError iff roots differ.",
+    "Every ordered pair of nodes of every shape up to 7 (quick) / 9 (thorough) nodes, cross-tree pairs, and sampled pairs on Hypothesis trees up to 60 nodes: the triple is compared with path arithmetic on ancestor chains recomputed from .parent, the link/simple-path clauses are checked directly, walk(end,start) must be the mirror image, WalkError iff roots differ. Generated cases carry up to three mutations (move, detach, reverse children, rename); the complete oracle is re-evaluated on the same node objects after each of them (read - mutate - read again), which is what exposes stale caches.",
     "Trusts the ancestor-chain arithmetic in vf/props/c15.py.",
     "bounded-exhaustive shapes x all ordered pairs + Hypothesis vs. ancestor-chain path arithmetic and mirror relation",
     "DESIGN.md section 4 C15",
@@ -50,7 +50,7 @@ check(
 check(
     "C01",
     "fault_enumeration",
-    "Every labelled ordered forest over N <= 3 (quick) / <= 4 (thorough) nodes x build routes x every structural call (incl. invalid arguments) x every position at which any of the eight hooks can raise (once, pairs, persistent single (hook,node), read-only plan) is executed for a NodeMixin class, a slotted LightNodeMixin class and a mixed-family universe, under both ANYTREE_ASSERTIONS settings, plus Hypothesis histories over eight class mixes (Node, AnyNode, SymlinkNode, user classes, both mixins); after every call the link invariant is evaluated over everything reachable and no internal assertion may fire. Complete below the bound, sampled above.",
+    "Every labelled ordered forest over N <= 3 (quick) / <= 4 (thorough) nodes x build routes x every structural call (incl. invalid arguments) x every position at which any of the eight hooks can raise (once, pairs, persistent single (hook,node), read-only plan) is executed for a NodeMixin class, a slotted LightNodeMixin class a mixed-family universe and two classes whose instances all compare equal, under both ANYTREE_ASSERTIONS settings, plus Hypothesis histories over eleven class mixes (Node, AnyNode, SymlinkNode, user classes, both mixins); after every call the link invariant is evaluated over everything reachable and no internal assertion may fire. Complete below the bound, sampled above.",
     "Hooks only raise, they never mutate the tree; the invariant is read through public .parent/.children; calls run under a lowered recursion limit so unbounded rollback recursion ends quickly; a case that does not terminate within 15 s is reported as a violation (non-termination).",
     "fault enumeration (bounded-exhaustive forests x calls x hook fault positions) + Hypothesis stateful histories vs. structural link invariant",
     "DESIGN.md section 4 C01",
@@ -90,23 +90,23 @@ check(
 check(
     "C07",
     "exploration",
-    "Trees up to 12 nodes with adversarial names, six separators, both path attributes and all four ignorecase/relax combinations: for every ordered node pair the absolute path and the relative path spelled from Walker.walk must resolve to the target (identity), and generated component sequences (names, unknown names, '..', '.', '', leading/trailing/double separators) must give exactly the node or exception class (and exc.node) a reference interpreter of the statement gives; relaxed mode must return None exactly there and never raise. All short paths over a 7-symbol alphabet are enumerated on all small shapes.",
+    "Trees up to 12 nodes with adversarial names, six separators, both path attributes and all four ignorecase/relax combinations: for every ordered node pair the absolute path and the relative path spelled from Walker.walk must resolve to the target (identity), and generated component sequences (names, unknown names, '..', '.', '', leading/trailing/double separators) must give exactly the node or exception class (and exc.node) a reference interpreter of the statement gives; relaxed mode must return None exactly there and never raise. All short paths over a 7-symbol alphabet are enumerated on all small shapes (with and without sibling names that differ only in case); the thorough tier adds 16 coverage-guided atheris campaigns on the same strategy and oracle. Generated cases carry up to three mutations (move, detach, reverse children, rename); the complete oracle is re-evaluated on the same node objects after each of them (read - mutate - read again), which is what exposes stale caches.",
     "Trusts vf/resolver_ref.py ref_get; names never contain separator characters, are never '', '.', '..'; special-casing characters are not generated. Found and repaired defect D3 (fix: commit 093226e) is replayed as regression input.",
-    "Hypothesis trees/names/paths + exhaustive short paths vs. reference path interpreter and two round trips",
+    "Hypothesis trees/names/paths + exhaustive short paths (+ atheris campaigns in the thorough tier) vs. reference path interpreter and two round trips",
     "DESIGN.md section 4 C07",
 )
 check(
     "C08",
     "exploration",
-    "Every query runs in relaxed and strict mode on the shared class-level pattern cache (queries of a case form a cache history with more than 20 distinct components, ignorecase pairs and explicit clears). Relaxed: never raises, identity set equals a reference evaluator with its own DP wildcard matcher, pre-order/duplicate clauses. Strict: same list or ResolverError only with a genuine dead end; wildcard-free patterns agree with get. All patterns of <= 3 (quick) / <= 4 (thorough) components over a 9-symbol alphabet are enumerated on all shapes <= 4/5 nodes.",
+    "Every query runs in relaxed and strict mode on the shared class-level pattern cache (queries of a case form a cache history with more than 20 distinct components, ignorecase pairs and explicit clears). Relaxed: never raises, identity set equals a reference evaluator with its own DP wildcard matcher, pre-order/duplicate clauses. Strict: same list or ResolverError only with a genuine dead end; wildcard-free patterns agree with get. All patterns of <= 3 (quick) / <= 4 (thorough) components over a 10-symbol alphabet (incl. the empty component) are enumerated on all shapes <= 4/5 nodes; the thorough tier adds 16 coverage-guided atheris campaigns on the same strategy and oracle. Generated cases carry up to three mutations (move, detach, reverse children, rename); the complete oracle is re-evaluated on the same node objects after each of them (read - mutate - read again), which is what exposes stale caches.",
     "Trusts vf/resolver_ref.py ref_glob/wildmatch; '**' as absolute root component not generated; strict clauses only on sibling-unique names. Defect D4 repaired (fix: 7a838a2); KF-C08-1 recognised only by its dead-end signature with the subsequence requirement.",
-    "Hypothesis patterns/cache histories + exhaustive short patterns vs. reference glob evaluator; relaxed/strict/get metamorphic relations",
+    "Hypothesis patterns/cache histories + exhaustive short patterns (+ atheris campaigns in the thorough tier) vs. reference glob evaluator; relaxed/strict/get metamorphic relations",
     "DESIGN.md section 4 C08",
 )
 check(
     "C10",
     "exploration",
-    "Generated trees of AnyNode/Node/a user NodeMixin class with arbitrary attribute dictionaries (non-identifier and underscore keys; None, numbers, text, bytes, tuples, sets, nested containers, opaque objects) and every attriter/childiter/dictcls/maxlevel choice at every level: export equals an independent serialisation (key order, mapping type, 'children' only when non-empty), import_(export(t)) is isomorphic with equal attributes, export(import_(d)) equals d up to empty 'children' lists for generated nested dictionaries, and neither call modifies its argument. The option product is enumerated on all shapes <= 4/6 nodes.",
+    "Generated trees of AnyNode/Node/a user NodeMixin class with arbitrary attribute dictionaries (non-identifier and underscore keys; None, numbers, text, bytes, tuples, sets, nested containers, opaque objects) and every attriter/childiter/dictcls/maxlevel choice at every level: export equals an independent serialisation (key order, mapping type, 'children' only when non-empty), import_(export(t)) is isomorphic with equal attributes, export(import_(d)) equals d up to empty 'children' lists for generated nested dictionaries, and neither call modifies its argument. The option product is enumerated on all shapes <= 4/6 nodes. Generated cases carry up to three mutations (move, detach, reverse children, rename); the complete oracle is re-evaluated on the same node objects after each of them (read - mutate - read again), which is what exposes stale caches.",
     "Trusts the reference serialiser in vf/props/c10.py; attribute keys avoid 'parent', 'children' and constructor parameter names; immutability judged on public state.",
     "Hypothesis attributed trees and nested dictionaries + enumerated option product vs. reference serialiser and two round trips",
     "DESIGN.md section 4 C10",
@@ -114,7 +114,7 @@ check(
 check(
     "C11",
     "exploration",
-    "Generated trees with JSON-representable values (huge ints, finite floats, non-ASCII/control/astral text, nested lists and dicts) under every combination of indent/sort_keys/ensure_ascii/separators/maxlevel, with and without a custom DictExporter (own attriter/childiter/maxlevel) and custom DictImporter/object_pairs_hook: export() must equal json.dumps(reference dict, **options) textually, write() must emit the same text, import_() and read() must rebuild an isomorphic tree with type-strictly equal values.",
+    "Generated trees with JSON-representable values (huge ints, finite floats, non-ASCII/control/astral text, nested lists and dicts) under every combination of indent/sort_keys/ensure_ascii/separators/maxlevel, with and without a custom DictExporter (own attriter/childiter/maxlevel) and custom DictImporter/object_pairs_hook: export() must equal json.dumps(reference dict, **options) textually, write() must emit the same text, import_() and read() must rebuild an isomorphic tree with type-strictly equal values. Generated cases carry up to three mutations (move, detach, reverse children, rename); the complete oracle is re-evaluated on the same node objects after each of them (read - mutate - read again), which is what exposes stale caches.",
     "Trusts json.dumps of the standard library and the C10 reference serialiser; NaN/Infinity, tuples and non-string keys are outside the property.",
     "Hypothesis JSON-valued trees x option bundles vs. json.dumps(reference) and import round trip",
     "DESIGN.md section 4 C11",
@@ -122,7 +122,7 @@ check(
 check(
     "C12",
     "exploration",
-    "The complete product start x stop subset x filtered-out subset x maxlevel (None, 0..height+2) on every shape <= 5 (quick) / <= 6 (thorough) nodes for DotExporter, UniqueDotExporter and RenderTreeGraph with quote/backslash/newline/non-ASCII names, plus Hypothesis trees with colliding names, custom name/attribute/edge functions, options, indent, graph/name and to_dotfile: header, option lines, node statements in reference pre-order with recoverable escaped identifiers, edge statements as a multiset equal to the declared parent-child pairs, closing brace, identifier stability on re-iteration.",
+    "The complete product start x stop subset x filtered-out subset x maxlevel (None, 0..height+2) on every shape <= 5 (quick) / <= 6 (thorough) nodes for DotExporter, UniqueDotExporter and RenderTreeGraph with quote/backslash/newline/non-ASCII names, plus Hypothesis trees with colliding names, custom name/attribute/edge functions, options, indent, graph/name and to_dotfile: header, option lines, node statements in reference pre-order with recoverable escaped identifiers, edge statements as a multiset equal to the declared parent-child pairs, closing brace, identifier stability on re-iteration. Generated cases carry up to three mutations (move, detach, reverse children, rename); the complete oracle is re-evaluated on the same node objects after each of them (read - mutate - read again), which is what exposes stale caches.",
     "Defect D7 repaired (fix: 3fd3770). KF-C12-1 (edge to a directly stopped child, pinned by the repository's reference files) is recognised only by its signature: declared parent, depth in range, stop(c) and filter_(c) true; any other undeclared edge end is a violation.",
     "bounded-exhaustive option product + Hypothesis names/functions vs. parse-back of emitted lines against the declared sub-forest",
     "DESIGN.md section 4 C12",
@@ -130,7 +130,7 @@ check(
 check(
     "C13",
     "exploration",
-    "Same product and generators as C12 for MermaidExporter: header, option lines, node lines indent+id+nodefunc in reference pre-order, default label escaping, distinct and stable identifiers, edge lines as a multiset equal to the declared parent-child pairs, to_file fence.",
+    "Same product and generators as C12 for MermaidExporter: header, option lines, node lines indent+id+nodefunc in reference pre-order, default label escaping, distinct and stable identifiers, edge lines as a multiset equal to the declared parent-child pairs, to_file fence. Generated cases carry up to three mutations (move, detach, reverse children, rename); the complete oracle is re-evaluated on the same node objects after each of them (read - mutate - read again), which is what exposes stale caches.",
     "Defect D7 repaired (fix: b21f505). Default identifiers are read off the node lines and must match N<digits>.",
     "bounded-exhaustive option product + Hypothesis names/functions vs. expected lines built from the declared sub-forest",
     "DESIGN.md section 4 C13",
